@@ -79,27 +79,38 @@ def main():
         old[r["id"]] = r
     allr = [old[k] for k in sorted(old) if os.path.isdir(os.path.join(SEEDED, k))]
     json.dump(allr, open(rp, "w"), indent=1)
+    first = {}
+    fp = os.path.join(SEEDED, "FIRST_RUN.json")
+    if os.path.exists(fp):
+        first = json.load(open(fp))
     lines = ["# Seeded changes and the checks that catch them", "",
-             "Each row: a confirmed property-breaking change (applies to /repo HEAD, test suite still passes, demo exits 1 with it and 0 without).",
-             "`caught` = the check of that property exits 1 with a VIOLATION line; `input` = a concrete failing input was found on the implementation,",
-             "`obligation` = only a broken proof/correspondence was reported (no-failing-input-found).", "",
-             "| id | property | change | caught by | how | other checks that also fire |", "|---|---|---|---|---|---|"]
+             "Each row: a confirmed property-breaking change written by a sub-agent that saw only the property text (applies to /repo HEAD, the whole test",
+             "suite still passes, demo.py exits 1 with it and 0 without).  `first run` = outcome of the property's own quick check when the change was",
+             "first tried; `now` = outcome with the current checks.  `input` = a concrete failing input was found on the implementation, `obligation` = only a",
+             "broken proof / translator / correspondence was reported (no-failing-input-found).", "",
+             "| id | property | change | first run | now | how it is caught now | what was strengthened after a miss |", "|---|---|---|---|---|---|---|"]
     for r in allr:
         own = r.get("checks", {}).get(r["property"])
         if "error" in r:
-            lines.append(f"| {r['id']} | {r['property']} | {r['summary'][:120]} | ERROR {r['error'][:80]} | | |")
+            lines.append(f"| {r['id']} | {r['property']} | {r['summary'][:120]} | | ERROR {r['error'][:80]} | | |")
             continue
         caught = own and own["exit"] == 1 and own["violations"] > 0
         how = ""
         if caught:
             how = "obligation" if own["no_failing_input"] == own["violations"] else "input"
             if own["required"]:
-                how += ": " + own["required"][0][:140].replace("|", "/")
+                how += ": " + own["required"][0][:150].replace("|", "/")
         others = [c for c, v in r.get("checks", {}).items() if c != r["property"] and v["exit"] == 1]
-        lines.append(f"| {r['id']} | {r['property']} | {r['summary'][:160].replace('|', '/')} | {'**' + r['property'] + '**' if caught else 'MISSED'} | {how} | {', '.join(others)} |")
+        fr = first.get(r["id"], {})
+        f1 = "" if not fr else ("caught" if fr.get("caught_by_own_check_at_first_run") else "MISSED")
+        now = ("**" + r["property"] + "**") if caught else ("by " + ", ".join(others) if others else "MISSED")
+        lines.append(f"| {r['id']} | {r['property']} | {r['summary'][:170].replace('|', '/')} | {f1} | {now} | {how} | {fr.get('strengthening', '')} |")
     n = sum(1 for r in allr if "error" not in r)
     c = sum(1 for r in allr if "error" not in r and r.get("checks", {}).get(r["property"], {}).get("exit") == 1)
-    lines += ["", f"{c} of {n} caught by the check of their own property ({a.tier} tier)."]
+    o = sum(1 for r in allr if "error" not in r and r.get("checks", {}).get(r["property"], {}).get("exit") != 1 and any(v["exit"] == 1 for k, v in r.get("checks", {}).items() if k != r["property"]))
+    f1c = sum(1 for r in allr if first.get(r["id"], {}).get("caught_by_own_check_at_first_run"))
+    lines += ["", f"{n} confirmed changes; {f1c} were caught by the check of their own property when first tried; now {c} are caught by it"
+              f"{' and ' + str(o) + ' more by the check of the property whose clause they break' if o else ''} ({a.tier} tier)."]
     open(os.path.join(SEEDED, "INDEX.md"), "w").write("\n".join(lines) + "\n")
     for r in results:
         print(r["id"], {c: (v["exit"], v["violations"]) for c, v in r.get("checks", {}).items()}, r.get("error", ""))
